@@ -1,6 +1,10 @@
 (* Property C04 - nodes that have seen the same blocks agree on the heaviest chain.
-   Statements only; proofs in Proofs/ForkChoice.v, Proofs/Agreement.v, Proofs/BranchRefuted.v. *)
+   Statements only; proofs in Proofs/ForkChoice.v, Proofs/Agreement.v, Proofs/BranchRefuted.v, Proofs/AgreementLedger.v
+   (same blocks => same main chain and same ledger), Proofs/AgreementLedgerEx.v. *)
 From Virel Require Import Lib.Config Lib.U64 Lib.AMap Model.Ledger Model.Node Proofs.NodeBasics Proofs.ForkChoice Proofs.Agreement Proofs.BranchRefuted Gen.Params.
+From Virel Require Import Model.Emission Spec.Chain Proofs.Emission Proofs.Conservation Proofs.Pointwise Proofs.ChainInv Proofs.Refine2
+  Proofs.Replay1 Proofs.Replay2 Proofs.Replay3 Proofs.Replay4 Proofs.Replay5 Proofs.Replay6 Proofs.ChainExamples
+  Proofs.AgreementLedger Proofs.AgreementLedgerEx.
 Open Scope N_scope.
 
 (* For every configuration, every genesis, and EVERY sequence of deliveries (any blocks - valid, invalid, forked,
@@ -31,6 +35,61 @@ Theorem C04_agreement : forall cfg genesis_addr team_key g n0 ops1 ops2,
                       b_cd b = top_cd n1 -> b_cd b' = top_cd n1 -> h = h') -> top n1 = top n2).
 Proof. exact agreement. Qed.
 Print Assumptions C04_agreement.
+
+(* AGREEMENT ON THE LEDGER, not only on the tip.  Two nodes started from the same genesis that were handed blocks in any two
+   orders, store the same blocks, and whose heaviest stored block is unique (the hypothesis of C04_agreement) have the same
+   tip, the same tip height, the same MAIN CHAIN (the list of blocks filed in the height index under 1 .. top_h: a path of
+   stored blocks from genesis is determined by its last block, Proofs/AgreementLedger.v up_unique) and the same LEDGER:
+   accounts as functions (an absent record = an all-zero record; a node that reorganised keeps emptied records, see the
+   remark at the end of Props/C03.v), delegate table as a list, staked total.
+   The other premises are those of C03_ledger_is_replay (Props/C03.v), stated on the store of the first node only - the
+   second holds the same blocks: constants (the C03_cfg_ok_ and C03_cfg_feepos_ theorems), genesis at height 0, fewer than 2^64 - 1
+   deliveries each, typed transactions in stored blocks (derivable from the decoder: C03_ledger_is_replay_decoded) and
+   along every chain of stored blocks distinct hashes / transaction ids and counters that cannot wrap. *)
+Theorem C04_agreement_ledger : forall cfg genesis_addr team_key g n0 ops1 ops2,
+  cfg_ok_emission cfg = true -> cfg_ok_feepos cfg = true ->
+  node0 cfg genesis_addr g = Ok n0 -> b_height g = 0 -> b_cd g = b_diff g ->
+  N.of_nat (length ops1) < two64 - 1 -> N.of_nat (length ops2) < two64 - 1 ->
+  let n1 := run cfg genesis_addr team_key n0 ops1 in
+  let n2 := run cfg genesis_addr team_key n0 ops2 in
+  Forall (tx_c cfg) (b_txs g) ->
+  (forall h b, get_block n1 h = Some b -> Forall (fun t => wf_tx cfg t /\ ver_ok t = true) (b_txs b)) ->
+  (forall bs, up (b_hash g) (blocks n1) (b_hash g) bs ->
+     NoDup (bkeys g ++ flat_map bkeys bs) /\ c0 g + bnouts bs < two64 /\ c0 g + bntx bs < two64) ->
+  (forall h, get_block n1 h = get_block n2 h) ->
+  (forall h h' b b', get_block n1 h = Some b -> get_block n1 h' = Some b' ->
+                     b_cd b = top_cd n1 -> b_cd b' = top_cd n1 -> h = h') ->
+  top n1 = top n2 /\ top_h n1 = top_h n2 /\ top_cd n1 = top_cd n2 /\ mchain n1 = mchain n2 /\
+  same_accounts (ldg n1) (ldg n2) /\ dlgs (ldg n1) = dlgs (ldg n2) /\ staked (ldg n1) = staked (ldg n2).
+Proof. exact agreement_ledger. Qed.
+Print Assumptions C04_agreement_ledger.
+
+(* non-vacuity: the five blocks of the reorganising history of Proofs/ChainExamples.v in two orders.  Node 1 (A1, A2, A3, B,
+   D) follows G-A1-A2-A3 and reorganises to the heavier G-B-D; node 2 (B, D, A1, A2, A3) follows G-B-D from the start and
+   never reorganises.  Every premise holds (D is the only block of cumulative difficulty 14); the stores list the blocks in
+   different orders; both end with tip D, main chain [B; D] and agreeing ledgers. *)
+Theorem C04_agreement_ledger_example :
+  let n1 := run cfg_verifnet 7 0 ex_n0 sr_ops in
+  let n2 := run cfg_verifnet 7 0 ex_n0 sr_ops_perm in
+  node0 cfg_verifnet 7 w_genesis = Ok ex_n0 /\
+  cfg_ok_emission cfg_verifnet = true /\ cfg_ok_feepos cfg_verifnet = true /\
+  b_height w_genesis = 0 /\ b_cd w_genesis = b_diff w_genesis /\
+  N.of_nat (length sr_ops) < two64 - 1 /\ N.of_nat (length sr_ops_perm) < two64 - 1 /\
+  Forall (tx_c cfg_verifnet) (b_txs w_genesis) /\
+  (forall h b, get_block n1 h = Some b -> Forall (fun t => wf_tx cfg_verifnet t /\ ver_ok t = true) (b_txs b)) /\
+  (forall bs, up (b_hash w_genesis) (blocks n1) (b_hash w_genesis) bs ->
+     NoDup (bkeys w_genesis ++ flat_map bkeys bs) /\ c0 w_genesis + bnouts bs < two64 /\ c0 w_genesis + bntx bs < two64) /\
+  (forall h, get_block n1 h = get_block n2 h) /\
+  (forall h h' b b', get_block n1 h = Some b -> get_block n1 h' = Some b' ->
+                     b_cd b = top_cd n1 -> b_cd b' = top_cd n1 -> h = h') /\
+  map fst (blocks n1) = [1; 2; 3; 8; 4; 6] /\ map fst (blocks n2) = [1; 4; 6; 2; 3; 8] /\
+  top (run cfg_verifnet 7 0 ex_n0 (firstn 4 sr_ops)) = 8 /\ top (run cfg_verifnet 7 0 ex_n0 (firstn 4 sr_ops_perm)) = 6 /\
+  tips n1 = [(8, mktip 8 3 11)] /\ tips n2 = [(8, mktip 8 3 11)] /\
+  top n1 = 6 /\ top n2 = 6 /\ top_h n1 = 2 /\ top_h n2 = 2 /\ map b_hash (mchain n1) = [4; 6] /\
+  top n1 = top n2 /\ top_h n1 = top_h n2 /\ top_cd n1 = top_cd n2 /\ mchain n1 = mchain n2 /\
+  same_accounts (ldg n1) (ldg n2) /\ dlgs (ldg n1) = dlgs (ldg n2) /\ staked (ldg n1) = staked (ldg n2).
+Proof. exact agreement_ledger_example. Qed.
+Print Assumptions C04_agreement_ledger_example.
 
 (* the invariant is inductive for single deliveries as well (used by the other node-level properties) *)
 Theorem C04_deliver_preserves_invariant : forall cfg genesis_addr team_key n b now n' out amb,
